@@ -173,6 +173,7 @@ Lemma rt_instances_example :
 Proof.
   assert (H : rt_inst_hyp doc_hier = true) by (vm_compute; reflexivity).
   unfold rt_inst_hyp in H. destruct (elab doc_hier) as [n|]; [|discriminate].
-  repeat (apply andb_true_iff in H as [H ?]). destruct (elab (emit n)) as [n'|] eqn:E; [|discriminate].
+  apply andb_true_iff in H as [H H0]. apply andb_true_iff in H as [H H1]. apply andb_true_iff in H as [H H2].
+  destruct (elab (emit n)) as [n'|] eqn:E; [|discriminate].
   exists n, n'. repeat split; auto. apply Nat.eqb_eq. assumption.
 Qed.
